@@ -213,7 +213,9 @@ def run_batch(bdir, prop, tier, seed, count, wallcap, outdir, nworkers):
                 trouble.append("worker %d exit %d: %s\n%s%s" % (w, rc, prog[:3000], tail, detail))
                 continue
             m = re.match(r"run (\d+) seed (\d+)", prog)
-            if m:
+            if "synctest channel" in tail or "outside bubble" in tail:
+                trouble.append("worker %d: testing/synctest refused a cross-bubble operation (harness use of an object outside the bubble it was created in):\n%s" % (w, tail))
+            elif m:
                 deaths.append({"index": int(m.group(1)), "seed": int(m.group(2)), "rc": rc, "tail": tail})
                 nxt = int(m.group(1)) + nworkers
                 if len(deaths) < 4 and nxt < count:
@@ -248,7 +250,8 @@ def run_case(bdir, case, outdir, tag, runwall=180):
         prog = open(os.path.join(outdir, "progress-%d.txt" % wid)).read()
     except OSError:
         pass
-    if rc == 12 or prog.startswith("WALL-WATCHDOG"):
+    if rc == 12 or prog.startswith("WALL-WATCHDOG") or "synctest channel" in out or "outside bubble" in out or "synctest:" in out:
+        # a fatal error of testing/synctest is about how the harness uses objects across bubbles, never about the code under test
         return {"class": "harness", "detail": "exit %d %s %s" % (rc, prog[:2000], out[-2000:])}
     return {"class": "violation", "sig": "process-death", "detail": "the worker process died (exit %d) while running this case:\n%s" % (rc, out[-3000:])}
 
